@@ -6,8 +6,8 @@ Data: BlockSize::MAX, BlockHeader::SIZE, FLAC_TAG, the block-type codes.
 Anchors (normalised text compared with what the Coq model mirrors): grow_padding,
 shrink_padding, BlockSize::checked_add/checked_sub, the three-way `match new_size.cmp(&old_size)`
 of update_file, the serial `join`/`try_join`/`vec_map`, Counter::write.
-Missing item -> prints ANCHOR-LOST and exits 2 (broken tie); changed text -> ANCHOR-CHANGED, exit 3
-(a note, not a violation)."""
+A missing DATA item -> prints ANCHOR-LOST and exits 2 (broken tie).  Function-text anchors are soft: changed or
+not found -> ANCHOR-CHANGED, exit 3 (a note in the evidence, never a violation)."""
 import os
 import re
 import sys
